@@ -57,7 +57,7 @@ def main():
             'guard': 'NASA_REFINE_VERIF',
             'enable': '-DNASA_REFINE_VERIF is added by checks/common.py when it compiles /repo/src/*.c out of tree '
                       '(objects under /verif/.build/<id>_<pid>/, removed at exit)',
-            'baseline_off_cmd': 'cmake --build /repo/_build && ctest --test-dir /repo/_build -j8 --timeout 900',
+            'baseline_off_cmd': 'cmake --build /repo/_build && ctest --test-dir /repo/_build/src -j8 --timeout 900',
             'source_commits': json.load(open(os.path.join(VERIF, 'hooks.json')))['commits']
             if os.path.exists(os.path.join(VERIF, 'hooks.json')) else [],
             'add_only': True,
